@@ -969,6 +969,44 @@ fn main() {
         };
         let base = run(&c.ops, &c.intents);
         let mut oracle: Vec<String> = base.flags.clone();
+        // the id is a function of (kind, bytes, parent SET) only: re-cite the parents reversed and with
+        // repetitions under another target, and compare ids of equal / different contents of one domain
+        {
+            let canon = |s: &IntentSpec| {
+                let mut p = s.parents.clone();
+                p.sort_unstable();
+                p.dedup();
+                (s.kind, s.bytes.clone(), p)
+            };
+            let envs: Vec<IngressEnvelope> = c.intents.iter().map(IntentSpec::envelope).collect();
+            for (i, s) in c.intents.iter().enumerate() {
+                let mut ps = s.parents.clone();
+                ps.reverse();
+                if let Some(f) = s.parents.first() {
+                    ps.push(*f);
+                    ps.insert(0, *f);
+                }
+                let again = IngressEnvelope::local_intent_with_causal_parents(
+                    IngressTarget::ExactHead { key: hkey("77", "78") },
+                    IntentKind::from_hash(s.kind),
+                    s.bytes.clone(),
+                    ps,
+                );
+                if again.ingress_id() != envs[i].ingress_id() {
+                    oracle.push("id-depends-on-target-or-parent-citation-order".into());
+                }
+                for (j, t) in c.intents.iter().enumerate().skip(i + 1) {
+                    let same = canon(s) == canon(t);
+                    let same_id = envs[i].ingress_id() == envs[j].ingress_id();
+                    if same && !same_id {
+                        oracle.push("equal-content-different-id".into());
+                    }
+                    if !same && same_id && s.parents.is_empty() == t.parents.is_empty() {
+                        oracle.push("different-content-same-id-within-domain".into());
+                    }
+                }
+            }
+        }
         let mut variants = 0usize;
         let mut f11 = 0usize;
         let mut rng = Rng(c.seed);
